@@ -16,7 +16,7 @@ fail=0
 run_one() { # patch prop expect(1|0)
   local patch=$1 prop=$2 expect=$3
   local d="$SCR/repo-$(basename "$patch" .patch)-$prop"
-  rm -rf "$d"; mkdir -p "$d"; rsync -a --exclude .git /repo/ "$d/"
+  rm -rf "$d"; mkdir -p "$d"; rsync -a --exclude .git "${SELFTEST_REPO:-/repo}/" "$d/"
   if ! (cd "$d" && patch -p1 -s < "$VERIF/$patch"); then echo "SELFTEST-ERROR: $patch does not apply"; fail=1; rm -rf "$d"; return; fi
   local out="$SCR/out-$(basename "$patch" .patch)-$prop"; mkdir -p "$out"
   GOVC_OUT_DIR="$out" "$VERIF/bin/govc" check -repo "$d" -property "$prop" > "$out/log" 2>&1
